@@ -141,6 +141,7 @@ func (r *RMap) Kind() string {
 func (r *RMap) Caps() schema.Caps {
 	c := schema.FullCaps()
 	c.CompoundKeys = false // map lists are indexed by the first key only
+	c.TypedMaps = !r.node
 	if r.node {
 		c.IntKeys = false // nodeutil.Node types a new entry's map by the list's key type
 	}
@@ -206,6 +207,14 @@ func (r *RMap) fill(set func(string, interface{}), t *model.Tree) error {
 			}
 		case schema.Container:
 			if v, ok := t.Cont[c.Name]; ok {
+				if tm := typedMapFor(c); !r.node && tm.IsValid() {
+					// all leaves of one scalar type: a Go map with that element type
+					if err := r.fill(func(k string, x interface{}) { tm.SetMapIndex(reflect.ValueOf(k), reflect.ValueOf(x)) }, v); err != nil {
+						return err
+					}
+					set(c.Name, tm.Interface())
+					continue
+				}
 				m := map[interface{}]interface{}{}
 				if err := r.fill(func(k string, x interface{}) { m[k] = x }, v); err != nil {
 					return err
@@ -245,6 +254,29 @@ func (r *RMap) fill(set func(string, interface{}), t *model.Tree) error {
 		}
 	}
 	return nil
+}
+
+// typedMapFor returns an empty map[string]T when every data child of the
+// container is a leaf of the one scalar type T (string, int32, boolean).
+func typedMapFor(c *schema.Node) reflect.Value {
+	kids := c.DataChildren()
+	if len(kids) == 0 {
+		return reflect.Value{}
+	}
+	for _, k := range kids {
+		if k.Kind != schema.Leaf || k.Type != kids[0].Type {
+			return reflect.Value{}
+		}
+	}
+	switch kids[0].Type {
+	case "string":
+		return reflect.ValueOf(map[string]string{})
+	case "int32":
+		return reflect.ValueOf(map[string]int{})
+	case "boolean":
+		return reflect.ValueOf(map[string]bool{})
+	}
+	return reflect.Value{}
 }
 
 func (r *RMap) Walk() (*model.Tree, error) {
